@@ -571,9 +571,15 @@ def iter_elem(ip, st, it, idx):
 def s_next(ip, st, fr, name, args, c, site):
     r = args[0]
     it = ip.load(st, r.cell, r.path)
+    if isinstance(it, X.Sym) and not (c.get('local')):
+        it = as_iter(ip, st, it)
+        ip.store(st, r.cell, r.path, it)
     if not isinstance(it, X.Iter):
         raise X.Unanalysable('next on %r' % (it,))
     has = T.mk_cmp('lt', it.pos, it.end)
+    if it.zipped is not None:
+        z = it.zipped
+        has = T.mk_and(has, T.mk_cmp('lt', T.mk_add(z[1], T.mk_sub(it.pos, z[3])), z[2]))
 
     def k(ip, s2, f2, a2):
         r2 = a2[0]
@@ -586,6 +592,10 @@ def s_next(ip, st, fr, name, args, c, site):
             idx = it2.pos
             v = iter_elem(ip, s2, it2, idx)
             it2.pos = T.mk_add(idx, I(1))
+        if it2.zipped is not None:
+            z = it2.zipped
+            o = X.Iter(z[0], z[1], z[2], z[4])
+            v = X.Tup([v, iter_elem(ip, s2, o, T.mk_add(z[1], T.mk_sub(idx, z[3])))])
         return some(v)
     return [([has], k), ([T.mk_not(has)], lambda *a: none())]
 
@@ -670,13 +680,26 @@ def as_iter(ip, st, v):
 def s_map(ip, st, fr, name, args, c, site):
     it, clo = args
     it = as_iter(ip, st, it)
-    return one(X.Iter(it.base, it.pos, it.end, it.kind + ('map',), it.extra, it.fns + [clo]))
+    return one(X.Iter(it.base, it.pos, it.end, it.kind + ('map',), it.extra, it.fns + [clo], it.zipped))
 
 
-@S('std::iter::Iterator::filter')
+@S('std::iter::Iterator::filter', 'std::iter::Iterator::take_while', 'std::iter::Iterator::inspect')
 def s_filter(ip, st, fr, name, args, c, site):
     it, clo = args
-    return one(X.Iter(it.base, it.pos, it.end, it.kind + ('filter',), it.extra, it.fns + [clo]))
+    it = as_iter(ip, st, it)
+    return one(X.Iter(it.base, it.pos, it.end, it.kind + (name.rsplit('::', 1)[1],), it.extra, it.fns + [clo], it.zipped))
+
+
+@S('std::iter::Iterator::zip')
+def s_zip(ip, st, fr, name, args, c, site):
+    a, b = args
+    a = as_iter(ip, st, a)
+    if isinstance(b, X.Ref):
+        b = mk_iter(ip, st, b)
+    b = as_iter(ip, st, b)
+    if a.fns or b.fns or 'rev' in a.kind or 'rev' in b.kind or a.zipped is not None or b.zipped is not None or 'enumerate' in a.kind or 'enumerate' in b.kind:
+        raise X.Unanalysable('zip of adapted iterators', site)
+    return one(X.Iter(a.base, a.pos, a.end, a.kind, a.extra, [], (b.base, b.pos, b.end, a.pos, b.kind)))
 
 
 # ------------------------------------------------------------------ comparisons through references
